@@ -91,7 +91,7 @@ def check_A(item, r):
                          initial_state_dist=base2.initial_state_dist, is_absorbing=base2.is_absorbing, discount_rate=float(spec2.gamma))
     over2 = {
         'initial_state_dist': lambda: DictDistribution({sl(0): 1.0}),
-        'actions': lambda s: (al('a'), al('a')),
+        'actions': lambda s: (al('a'), 'other'),
         'next_state_dist': lambda s, a: DictDistribution({sl(0): 1.0}),
         'reward': lambda s, a, ns: 7.0,
         'is_absorbing': lambda s: s == sl(spec.n - 1),
@@ -143,6 +143,16 @@ def check_A(item, r):
     if tabular:
         oview['state_list'] = over['state_list']
         oview['action_list'] = over['action_list']
+    oview2 = {'discount_rate': base.discount_rate,
+              'initial_state_dist': dict(over2['initial_state_dist']().items()),
+              'actions': {s: over2['actions'](s) for s in states},
+              'is_absorbing': {s: over2['is_absorbing'](s) for s in states},
+              'next_state_dist': {(s, a): dict(over2['next_state_dist'](s, a).items()) for s in states for a in base_actions(s)},
+              'reward': {(s, a, ns): 7.0 for s in states for a in base_actions(s) for ns in base_succ[s, a]}}
+    if tabular:
+        oview2['state_list'] = over2['state_list']
+        oview2['action_list'] = over2['action_list']
+    nest_i = [li + ci]
     for k in range(len(comps) + 1):
         for sub in combinations(comps, k):
             r.count('states')
@@ -158,6 +168,24 @@ def check_A(item, r):
                 if got[c] != want:
                     r.violation('augment_component_differs', {'overridden': sub, 'component': c, 'class': type(base).__name__,
                                                                'got': repr(got[c])[:300], 'want': repr(want)[:300]}, item)
+            # a derived MDP is an MDP: derive again from it (nothing, or one rotating component with other functions) and look
+            # at every component of the result -- overridden twice, once at either level, or never
+            nest_i[0] += 1
+            for sub2 in ((), (comps[nest_i[0] % len(comps)],)):
+                try:
+                    aug_n = augment(aug, **{c: over2[c] for c in sub2})
+                    got_n = view(aug_n, base_actions)
+                except BaseException as e:
+                    r.violation('augment_exception', {'overridden': sub, 'then_overridden': sub2, 'error': repr(e)[:300],
+                                                      'class': type(base).__name__}, item)
+                    continue
+                r.count('transitions')
+                for c in bview:
+                    want = oview2[c] if c in sub2 else (oview[c] if c in sub else bview[c])
+                    if got_n[c] != want:
+                        r.violation('augment_of_a_derived_mdp_component_differs',
+                                    {'overridden': sub, 'then_overridden': sub2, 'component': c, 'class': type(base).__name__,
+                                     'got': repr(got_n[c])[:300], 'want': repr(want)[:300]}, item)
             # derive a second MDP (other base instance of the same class, same overridden components, other functions),
             # then look at the first one again
             try:
